@@ -270,6 +270,9 @@ def gen_abort_case(rng, seed, target, mfs, big_n, keys):
                         else {'op': 'set', 'k': 'zz', 'v': c05.uniq_value(rng, 0, 99, big_n)})
         if target == 'cache' and rng.random() < 0.3:
             body.append({'op': 'pull', 'prefix': 'q'})
+        if target in ('cache', 'fanout') and rng.random() < 0.3:
+            body.insert(rng.randrange(len(body) + 1), rng.choice(({'op': 'clear'}, {'op': 'evict', 'tag': 't1'}, {'op': 'expire'},
+                                                                    {'op': 'cull'}, {'op': 'touch', 'k': rng.choice(keys), 'expire': 7})))
     blk = {'op': 'txn', 'body': body}
     if rng.random() < 0.8:
         blk['raise_at'] = rng.randint(0, len(body)); blk['raise_kind'] = rng.choice(('exc', 'base'))
